@@ -143,8 +143,28 @@ def run_random(spec, rec):
             if sidx == nsched - 1:
                 fine = (core.rng_for(seed, PROP, 'fine', idx), 0.08)
                 rec.count('fine_grained_runs')
-            res = H.run_controlled(dict(case), strat, fine=fine)
-            if fine is None:
+            then = None
+            if sidx == 1 and not case.get('groups'):
+                # the same backend and the same task objects are then used
+                # for another graph over the same tasks
+                rng2 = core.rng_for(seed, PROP, 'then', idx)
+                then = H.gen_dag(rng2, len(case['tasks']),
+                                 p_hard=rng2.choice([0.2, 0.5]),
+                                 p_soft=rng2.choice([0.0, 0.3]))
+                then['outcomes'] = H.gen_outcomes(rng2, then, KINDS)
+                then['workers'] = case['workers']
+                rec.count('backend_reused_for_another_graph')
+            res = H.run_controlled(dict(case), strat, fine=fine, then=then)
+            if then is not None and res.outcome == 'returned':
+                # the first run is judged too
+                first = H.Result()
+                first.outcome = 'returned'
+                first.statuses = res.first_statuses
+                first.exec_run = res.first_exec
+                compare(first, dict(case), rec,
+                        {'engine': 'controlled', 'choices': res.choices,
+                         'workers': case['workers'], 'part': 'first'})
+            if fine is None and then is None:
                 est = max(10, res.steps)
             rec.count('evaluations')
             if res.outcome == 'lost':
@@ -155,6 +175,10 @@ def run_random(spec, rec):
             extra = {'engine': 'controlled', 'choices': res.choices,
                      'workers': case['workers'],
                      'hashseed': spec.get('hashseed', 0)}
+            if then is not None:
+                extra['then'] = then
+                compare(res, dict(then), rec, extra)
+                continue
             compare(res, dict(case), rec, extra)
             maps.add(tuple(sorted(res.statuses.items())))
             if kinds_of(case):
@@ -201,7 +225,8 @@ def replay(case, rec):
                 compare(res, cas, rec, {'engine': 'stress',
                                         'stress_seed': case['stress_seed']})
         return
-    res = H.run_controlled(cas, C.Replay(case['choices']))
-    compare(res, cas, rec, {'engine': 'controlled',
-                            'choices': case['choices']})
+    res = H.run_controlled(cas, C.Replay(case['choices']),
+                           then=case.get('then'))
+    compare(res, case.get('then') or cas, rec,
+            {'engine': 'controlled', 'choices': case['choices']})
     rec.note('replayed', {'outcome': res.outcome, 'statuses': res.statuses})
